@@ -268,3 +268,16 @@ pub proof fn lemma_anon_match_seq_index(a: Seq<Unifiable>, b: Seq<Unifiable>, i:
 pub open spec fn post_anon_deep(a: Unifiable, b: Unifiable, ss: RSS, res: Option<RSS>) -> bool {
     anon_match(a, b) ==> res == Some(ss)
 }
+
+// binding x to t keeps every bound that holds for the old bindings and for t
+pub proof fn lemma_bind_below(s2: SS, s: SS, x: int, t: Unifiable)
+    requires is_bind(s2, s, x, t),
+    ensures forall|b: int| ss_below(s, b) && below(t, b) ==> #[trigger] ss_below(s2, b),
+{
+    assert forall|b: int| ss_below(s, b) && below(t, b) implies #[trigger] ss_below(s2, b) by {
+        assert forall|i: int| 0 <= i < s2.len() implies ((#[trigger] s2[i]) matches Some(r) ==> below(*r, b)) by {
+            if i == x { assert(bnd(s2, x) == Some(t)); }
+            else { assert(bnd(s2, i) == bnd(s, i)); if i < s.len() { assert(s2[i] == s[i]); } }
+        }
+    }
+}
